@@ -471,3 +471,9 @@ pub fn fmt_text_clipped(cell: &str, width: usize) -> String {
 pub fn fmt_text_padded_ok(cell: &str, d: Decimal) -> String {
     format!("{:<12}{:.2}", cell, d)
 }
+
+/// a figure rounded twice (4 dp, then 2 dp) differs from one rounding just below a midpoint
+pub fn round_twice(d: Decimal) -> Decimal {
+    d.round_dp_with_strategy(4, rust_decimal::RoundingStrategy::MidpointAwayFromZero)
+        .round_dp_with_strategy(2, rust_decimal::RoundingStrategy::MidpointAwayFromZero)
+}
